@@ -1,5 +1,5 @@
 SPECIFICATION Spec
-CONSTANT NPEERS = 4
+CONSTANT NPEERS = 5
 CONSTANT MinN = 2
 CONSTANT EqualsMode = "fixed"
 CONSTANT UpdateGuard = TRUE
